@@ -16,13 +16,11 @@ type semGen struct {
 	kinds  map[string]int
 	nfun   int
 	guard  int
-	weight map[string]int // emphasis per property
+	emphasis string
 }
 
 func newSemGen(r *Rand, emphasis string) *semGen {
-	g := &semGen{r: r, kinds: map[string]int{}, weight: map[string]int{}}
-	g.weight[emphasis] = 1
-	return g
+	return &semGen{r: r, kinds: map[string]int{}, emphasis: emphasis}
 }
 
 var semNames = []string{"a", "b", "c", "x"}
@@ -160,7 +158,7 @@ func (g *semGen) stmt(c *semCtx) string {
 			return "probe(" + g.name() + ")"
 		}
 	}
-	k := g.r.Intn(40)
+	k := g.pickKind()
 	switch {
 	case k < 6:
 		g.note("assign")
@@ -176,9 +174,9 @@ func (g *semGen) stmt(c *semCtx) string {
 		return g.expr(*c, d)
 	case k < 18:
 		g.note("if")
-		s := "if " + g.expr(*c, 1) + " " + g.block(*c)
+		s := "if " + g.cond(*c) + " " + g.block(*c)
 		for g.r.Chance(1, 3) {
-			s += " else if " + g.expr(*c, 1) + " " + g.block(*c)
+			s += " else if " + g.cond(*c) + " " + g.block(*c)
 		}
 		if g.r.Bool() {
 			s += " else " + g.block(*c)
@@ -213,16 +211,16 @@ func (g *semGen) stmt(c *semCtx) string {
 		gv := fmt.Sprintf("g%d", g.guard)
 		cond := ""
 		if g.r.Bool() {
-			cond = g.expr(*c, 1) + " "
+			cond = g.cond(*c) + " "
 		}
 		body := g.stmts(semCtx{depth: c.depth + 1, inLoop: true, inFunc: c.inFunc, funcs: c.funcs}, 1+g.r.Intn(2))
 		return fmt.Sprintf("%s = 0; for %s{ %s = %s + 1; if %s > %d { break }; %s }", gv, cond, gv, gv, gv, 1+g.r.Intn(3), body)
 	case k < 26:
 		g.note("switch")
-		s := "switch " + g.expr(*c, 1) + " {"
+		s := "switch " + g.cond(*c) + " {"
 		n := 1 + g.r.Intn(2)
 		for i := 0; i < n; i++ {
-			s += "\ncase " + g.expr(*c, 1)
+			s += "\ncase " + g.cond(*c)
 			if g.r.Chance(1, 3) {
 				s += ", " + g.atom()
 			}
@@ -294,6 +292,46 @@ func (g *semGen) stmt(c *semCtx) string {
 		return "defer func() { probe(" + g.name() + ") }()"
 	}
 	return "probe(" + g.name() + ")"
+}
+
+// statement kinds as ranges of k in stmt(): assign var read exprstmt if cfor forin loop switch try
+// throw funcdef closure break continue return module defer
+var semKindBounds = []int{6, 9, 13, 15, 18, 20, 22, 24, 26, 29, 31, 33, 34, 35, 36, 38, 39, 40}
+
+var semEmphasis = map[string][]int{
+	//        as va rd ex if cf fi lo sw tr th fd cl br co re mo de
+	"sem": {6, 3, 4, 2, 3, 2, 2, 2, 2, 3, 2, 2, 1, 1, 1, 2, 1, 1},
+	"c04": {7, 6, 7, 1, 3, 2, 3, 2, 3, 3, 2, 3, 3, 2, 2, 3, 3, 1},
+	"c08": {4, 2, 4, 1, 5, 4, 4, 4, 5, 1, 1, 2, 1, 4, 4, 4, 0, 0},
+	"c09": {3, 2, 3, 2, 2, 1, 1, 1, 1, 7, 6, 3, 1, 1, 1, 4, 0, 7},
+	"c07": {3, 2, 2, 8, 1, 1, 1, 0, 1, 2, 1, 4, 1, 0, 0, 3, 0, 3},
+}
+
+func (g *semGen) pickKind() int {
+	w, ok := semEmphasis[g.emphasis]
+	if !ok {
+		w = semEmphasis["sem"]
+	}
+	i := g.r.Pick(w)
+	lo := 0
+	if i > 0 {
+		lo = semKindBounds[i-1]
+	}
+	return lo + g.r.Intn(semKindBounds[i]-lo)
+}
+
+// truthiness classes for conditions (C08)
+var truthAtoms = []string{"nil", "true", "false", "0", "1", "0.0", "1.5", `""`, `"0"`, `"false"`, `"a"`, "[]", "[0]", "{}", `{"k": 1}`}
+
+func (g *semGen) cond(c semCtx) string {
+	if g.emphasis == "c08" && g.r.Chance(2, 3) {
+		a := truthAtoms[g.r.Intn(len(truthAtoms))]
+		if g.r.Chance(1, 3) {
+			return "probe(" + a + ")"
+		}
+		return a
+	}
+	return g.expr(c, 1)
 }
 
 // a loop body that terminates even if the loop variable is reassigned inside
